@@ -753,9 +753,11 @@ def check_c18(prop, tier, seed):
     from . import eng_cprop, eng_lruconc, eng_tee  # noqa: PLC0415
 
     def cancel_only(sig, d):
-        ev = json.dumps(d.get("matched_prefix", "")) + json.dumps(d.get("rejected_event", "")) + json.dumps(d.get("path", ""))
-        del ev
-        return ("C18/" + sig.split("/", 1)[1]) if "cancel" in sig else None
+        # what goes wrong after somebody was cancelled belongs here, whatever else the history contains
+        cancelled = any(isinstance(a, list) and a and a[0] == "cancel" for a in (d.get("path") or []))
+        if sig.endswith("+unstarted-close"):
+            return None      # the leak of a never-advanced child closed on its own happens with or without a cancellation (C09/C04)
+        return ("C18/" + sig.split("/", 1)[1]) if ("cancel" in sig or cancelled) else None
 
     sub = {}
     for name, eng, p_ in (("tee", eng_tee, "C09"), ("lruconc", eng_lruconc, "C11"), ("cprop", eng_cprop, "C12")):
@@ -1012,7 +1014,7 @@ def check_c20(prop, tier, seed):
         return ("C20/" + sig.split("/", 1)[1]) if "census" in sig else None
 
     sv = SubVerdict(v, census_only, "tee")
-    eng_tee.check("C09", "mini", seed, into=sv)
+    eng_tee.check("C09", "quick" if tier == "quick" else "mini", seed, into=sv)    # three children, closes and cancellations
     for t in traces[:3]:
         v.sample({"cfg": t["cfg"], "censuses": t["ev"][:4] + t["ev"][-2:]})
     v.assumptions += ["CPython reference counting + gc.collect(): an item is retained iff a weak reference to it is alive after collection",
